@@ -17,7 +17,7 @@ CFG = dict(
              "with the crate's corresponding reader (same dict_size / preset dictionary) to the input; a panic or an undecodable success is a failure. "
              "distinct_nontrivial = distinct command lines whose observation is not plain OK",
         trusted_base=COMMON_TB + [
-            "repo hook H3 (repo-patches/00): #[cfg(hasenbanck_lzma_rust2_verif)] pub use xz::{FilterConfig, FilterType}; needed to configure XZ pre-filter chains from outside the crate",
+            "repo hook H3 (/repo b3d60da): #[cfg(hasenbanck_lzma_rust2_verif)] pub use xz::{FilterConfig, FilterType}; needed to configure XZ pre-filter chains from outside the crate",
         ],
         assumptions=[
             "the model covers the option / constructor / table-index arithmetic and the validation; that a stream produced from in-range options decodes to the input is "
